@@ -438,6 +438,8 @@ def case_of_model(v) -> dict:
          "lm": list(rep["lm"]) if rep["lm_p"] else None}
     for h in HDRS:
         c[h] = txt(req[h]) if req[h + "_p"] else None
+    if c["range"] is not None and (c["inm"] is not None or c["im"] is not None or c["ims"] is not None):
+        c["op"] = "rc"
     return c
 
 
@@ -678,7 +680,7 @@ def run_file_scenarios(scs):
     import tempfile
 
     out = []
-    with tempfile.TemporaryDirectory(prefix="verif-c11-files-") as root:
+    with tempfile.TemporaryDirectory(prefix="verif-c11-files-", dir=os.environ.get("VERIF_TMP", "/var/tmp")) as root:
         for sc in scs:
             out.append(file_scenario(sc, root))
     return out
@@ -687,7 +689,7 @@ def run_file_scenarios(scs):
 def run_file_ranges(max_len):
     import tempfile
 
-    with tempfile.TemporaryDirectory(prefix="verif-c11-files-") as root:
+    with tempfile.TemporaryDirectory(prefix="verif-c11-files-", dir=os.environ.get("VERIF_TMP", "/var/tmp")) as root:
         return file_range_lines(root, max_len)
 
 
@@ -696,7 +698,7 @@ def file_case(sc):
     (or, with first=True, the first response itself)."""
     import tempfile
 
-    with tempfile.TemporaryDirectory(prefix="verif-c11-files-") as root:
+    with tempfile.TemporaryDirectory(prefix="verif-c11-files-", dir=os.environ.get("VERIF_TMP", "/var/tmp")) as root:
         l1, l2 = file_scenario(sc, root)
     return l1 if sc.get("first") else l2
 
@@ -704,7 +706,7 @@ def file_case(sc):
 def filerange_case(c):
     import tempfile
 
-    with tempfile.TemporaryDirectory(prefix="verif-c11-files-") as root:
+    with tempfile.TemporaryDirectory(prefix="verif-c11-files-", dir=os.environ.get("VERIF_TMP", "/var/tmp")) as root:
         st = (c["length"], FILE_T0, 250000)
         _set_file(os.path.join(root, "r.bin"), *st)
         return _file_request(root, "r.bin", {"api": c["api"], "etag_mode": "auto", "max_age_mode": "none"}, st,
